@@ -3,7 +3,16 @@ STEP-LEVEL (layer B) model of fibre's bounded SPSC channel:
   /repo/channels/src/spsc/shared.rs       `Ring` (push/pop/len, Drop), `SpscShared` (register,
                                           unregister, wake_one, notify_*, drop_sender/receiver)
   /repo/channels/src/spsc/bounded_sync.rs `send`, `try_send`, `recv`, `try_recv`,
-                                          `recv_timeout(0)`, `len`, `close`, `Drop`
+                                          `recv_timeout(0)`, `recv_timeout(d)`, `len`, `close`, `Drop`
+
+The TIMED receive `recv_timeout(d)`, d > 0 (`Op.recvTimeout`): its wait loop is the code of `recv`'s wait loop without
+the spin phase, with `park_timeout` for `park` and a deadline test (`Instant::now()`, not a visible action) between
+`senders_alive()` and the wait. It is modelled on the SAME call sites as `recv` (`rA`, `rL`, `rL2`, `rOk`, `rDisc`)
+with the local `Loc.tm = true`: `waitStep` skips the spin, `park_timeout` returning because the timeout fired is the
+existing token-less park return (`stepSpurious`), and the deadline exit is the environment step `Label.deadline`
+(`stepDeadline`: from the point where the thread would wait — `park` when registered, `rgLock` when not — to
+`rTo`: `[unregister] → Err(Timeout)`). Every invariant of `Fv.Lemmas.SpscB*` (control, ring, waiter protocol, no lost
+wake-up) is proved for these steps too.
 
 One step = ONE visible action of the scheduler shim (atomic load/store/swap/cas/fetch_sub, fence,
 Mutex lock/unlock, park, unpark, spin_loop) or the call / return of an API operation. Non-atomic
@@ -37,6 +46,7 @@ inductive Op where
   | recv
   | tryRecv
   | recvTimeout0
+  | recvTimeout     -- `recv_timeout(d)` with a real timeout: the wait loop of `recv` without the spin phase, `park_timeout`, deadline exit
   | len
   | close
   | drop
@@ -68,6 +78,7 @@ inductive K where
   | rL2       -- recv: loop, second pop after `!senders_alive()`
   | rOk       -- recv: loop pop succeeded: [unregister] → notify_senders → Ok
   | rDisc     -- recv: loop: [unregister] → Err(Disconnected)
+  | rTo       -- recv_timeout: loop: deadline passed: [unregister] → Err(Timeout)
   | tR        -- try_recv: first pop
   | tR2       -- try_recv: second pop after `!senders_alive()`
   | toA       -- recv_timeout(0): closed check + first pop
@@ -103,6 +114,9 @@ structure Loc where
   v : Nat := 0
   t : Nat := 0
   h : Nat := 0
+  /-- the call is the TIMED receive (`recv_timeout(d)`, d > 0): same call sites as `recv` (`rA`, `rL`, `rL2`, `rOk`,
+  `rDisc`) — the two loops are the same code — but no spin phase, `park_timeout` for `park`, and the deadline exit -/
+  tm : Bool := false
 deriving Repr, DecidableEq
 
 structure State where
@@ -162,6 +176,7 @@ inductive Label where
   | load (o : Obj) | store (o : Obj) | swap (o : Obj) | cas (o : Obj) | fsub (o : Obj)
   | fence | lock (r : Role) | unlock (r : Role)
   | park | spurious | unpark (r : Role) | spin
+  | deadline
 deriving Repr, DecidableEq
 
 def setLoc (s : State) (r : Role) (l : Loc) : State := { s with loc := upd s.loc r l }
@@ -178,7 +193,7 @@ def loopTop (l : Loc) : Loc :=
 /-- what a loop iteration does once its condition check failed -/
 def waitStep (l : Loc) : Loc :=
   if l.reg then { l with m := .park }
-  else if !l.spun then { l with m := .spin }
+  else if !l.spun && !l.tm then { l with m := .spin }
   else { l with m := .rgLock }
 
 def afterPush (l : Loc) (ok : Bool) : Loc :=
@@ -225,6 +240,7 @@ def afterUnreg (l : Loc) : Loc :=
   | .sOk | .rOk => { l with reg := false, m := .nfFence }
   | .sClosed => { l with reg := false, m := .ret .closed }
   | .rDisc => { l with reg := false, m := .ret .disc }
+  | .rTo => { l with reg := false, m := .ret .timeout }
   | _ => { l with m := .ret .closeErr }     -- unreachable
 
 /-- End of `close_internal` (or of the `closed` test that skips it). For `drop` the handle's Arc
@@ -252,6 +268,7 @@ def stepCall (s : State) (r : Role) : Option State :=
     | .recv, .C => some { s1 with flag := upd s.flag r false, loc := upd s.loc r { k := .rA, m := .ldClosed } }
     | .tryRecv, .C => some { s1 with loc := upd s.loc r { k := .tR, m := .ldClosed } }
     | .recvTimeout0, .C => some { s1 with loc := upd s.loc r { k := .toA, m := .ldClosed } }
+    | .recvTimeout, .C => some { s1 with flag := upd s.flag r false, loc := upd s.loc r { k := .rA, m := .ldClosed, tm := true } }
     | .len, _ => some { s1 with loc := upd s.loc r { k := .pr, m := .lenLdHead } }
     | .close, _ => some { s1 with loc := upd s.loc r { k := .cl, m := .casClosed } }
     | .drop, _ => some { s1 with loc := upd s.loc r { k := .dr, m := .swapClosed } }
@@ -394,7 +411,8 @@ def stepPark (s : State) (r : Role) : Option State :=
   | .park => if s.tok r then some { s with tok := upd s.tok r false, loc := upd s.loc r { l with m := .swapFlag } } else none
   | _ => none
 
-/-- `thread::park()` returns without a token (std permits it; the harness scheduler never does it) -/
+/-- `thread::park()` returns without a token (std permits it; the harness scheduler never does it), or — timed
+receive — `thread::park_timeout()` returns because the timeout fired -/
 def stepSpurious (s : State) (r : Role) : Option State :=
   let l := s.loc r
   match l.m with
@@ -408,6 +426,17 @@ def stepSwapFlag (s : State) (r : Role) : Option State :=
   | .swapFlag =>
     if s.flag r then some { s with flag := upd s.flag r false, loc := upd s.loc r (loopTop { l with reg := false, spun := false }) }
     else some (setLoc s r (loopTop l))
+  | _ => none
+
+/-- The deadline test of the timed receive (`Instant::now()` against the deadline: no visible action). It sits
+between `senders_alive()` and `park_timeout` / `register`, i.e. exactly where the thread is about to wait; when the
+deadline has passed the call leaves through `[unregister] → Err(Timeout)` instead. Whether it has passed is the
+environment's choice (real time). -/
+def stepDeadline (s : State) (r : Role) : Option State :=
+  let l := s.loc r
+  match l.m with
+  | .park => if l.tm ∧ l.k = .rL then some (setLoc s r { l with k := .rTo, m := .urLock }) else none       -- registered: unregister first
+  | .rgLock => if l.tm ∧ l.k = .rL then some (setLoc s r { l with k := .rTo, m := .ret .timeout }) else none  -- not registered yet
   | _ => none
 
 def stepSpin (s : State) (r : Role) : Option State :=
@@ -514,6 +543,7 @@ def step (s : State) (r : Role) : Label → Option State
   | .spurious => stepSpurious s r
   | .swap (.flag q) => if q = r then stepSwapFlag s r else none
   | .spin => stepSpin s r
+  | .deadline => stepDeadline s r
   | .load (.closed q) => if q = r then stepLdClosed s r else none
   | .load (.dropped q) => if q = other r then stepLdDropped s r else none
   | .load (.count q) => if q = other r then stepLdCount s r else none
